@@ -1169,6 +1169,11 @@ class CryptographyEngine(api.CryptographicEngine):
             b'\x90\x01P\x98<\xd2O\xb0\xd6\x96?}(\xe1\x7fr'
         """
         if derivation_method == enums.DerivationMethod.ENCRYPT:
+            if derivation_data is None:
+                raise exceptions.InvalidField(
+                    "For encryption-based key derivation, derivation data "
+                    "must be specified."
+                )
             result = self.encrypt(
                 encryption_algorithm=encryption_algorithm,
                 encryption_key=key_material,
@@ -1195,14 +1200,20 @@ class CryptographyEngine(api.CryptographicEngine):
                 )
 
             if derivation_method == enums.DerivationMethod.HMAC:
-                df = hkdf.HKDF(
-                    algorithm=hashing_algorithm(),
-                    length=derivation_length,
-                    salt=salt,
-                    info=derivation_data,
-                    backend=default_backend()
-                )
-                derived_data = df.derive(key_material)
+                try:
+                    df = hkdf.HKDF(
+                        algorithm=hashing_algorithm(),
+                        length=derivation_length,
+                        salt=salt,
+                        info=derivation_data,
+                        backend=default_backend()
+                    )
+                    derived_data = df.derive(key_material)
+                except (ValueError, TypeError) as e:
+                    raise exceptions.InvalidField(
+                        "The key cannot be derived with the specified "
+                        "parameters: {0}".format(e)
+                    )
                 return derived_data
             elif derivation_method == enums.DerivationMethod.HASH:
                 if None not in [derivation_data, key_material]:
@@ -1238,29 +1249,41 @@ class CryptographyEngine(api.CryptographicEngine):
                         "specified."
                     )
 
-                df = pbkdf2.PBKDF2HMAC(
-                    algorithm=hashing_algorithm(),
-                    length=derivation_length,
-                    salt=salt,
-                    iterations=iteration_count,
-                    backend=default_backend()
-                )
-                derived_data = df.derive(key_material)
+                try:
+                    df = pbkdf2.PBKDF2HMAC(
+                        algorithm=hashing_algorithm(),
+                        length=derivation_length,
+                        salt=salt,
+                        iterations=iteration_count,
+                        backend=default_backend()
+                    )
+                    derived_data = df.derive(key_material)
+                except (ValueError, TypeError) as e:
+                    raise exceptions.InvalidField(
+                        "The key cannot be derived with the specified "
+                        "parameters: {0}".format(e)
+                    )
                 return derived_data
             elif derivation_method == enums.DerivationMethod.NIST800_108_C:
-                df = kbkdf.KBKDFHMAC(
-                    algorithm=hashing_algorithm(),
-                    mode=kbkdf.Mode.CounterMode,
-                    length=derivation_length,
-                    rlen=4,
-                    llen=None,
-                    location=kbkdf.CounterLocation.BeforeFixed,
-                    label=None,
-                    context=None,
-                    fixed=derivation_data,
-                    backend=default_backend()
-                )
-                derived_data = df.derive(key_material)
+                try:
+                    df = kbkdf.KBKDFHMAC(
+                        algorithm=hashing_algorithm(),
+                        mode=kbkdf.Mode.CounterMode,
+                        length=derivation_length,
+                        rlen=4,
+                        llen=None,
+                        location=kbkdf.CounterLocation.BeforeFixed,
+                        label=None,
+                        context=None,
+                        fixed=derivation_data,
+                        backend=default_backend()
+                    )
+                    derived_data = df.derive(key_material)
+                except (ValueError, TypeError) as e:
+                    raise exceptions.InvalidField(
+                        "The key cannot be derived with the specified "
+                        "parameters: {0}".format(e)
+                    )
                 return derived_data
             else:
                 raise exceptions.InvalidField(
